@@ -129,7 +129,18 @@ func (t *GoType) HasDirectMethod(name string) bool {
 	return t.isDirectMethod[name]
 }
 
+// GetConverter returns the TypeConverter for this type. This is safe for
+// concurrent use by multiple goroutines.
 func (t *GoType) GetConverter() (TypeConverter, error) {
+	goTypeMutex.Lock()
+	defer goTypeMutex.Unlock()
+
+	return t.getConverter()
+}
+
+// getConverter is the implementation of GetConverter.
+// This is NOT threadsafe. The caller must be holding goTypeMutex.
+func (t *GoType) getConverter() (TypeConverter, error) {
 	if t.converter != nil {
 		return t.converter, nil
 	}
